@@ -787,7 +787,8 @@ def entitise(ch, dtd, root, sa):
             i = ch.pick(idx); j = ch.pick([k for k in idx if k >= i][:3])
             run = kids[i:j + 1]
             text = render_nodes(run)
-            if "'" not in text and '%' not in text:
+            # EntityValue literal: no "'" (delimiter), no '%' (PE reference), and every '&' must begin a well-formed reference
+            if "'" not in text and '%' not in text and not re.search(r'&(?!(?:amp|lt|gt|quot|#[0-9]+|ge[0-9]|g1);)', text):
                 count[0] += 1
                 nm = 'ge%d' % count[0]
                 dtd.entities[nm] = {'nodes': run, 'loc': 'int' if sa == 'yes' else ch.pick(['int', 'int', 'ext', 'epe'])}
